@@ -215,8 +215,8 @@ UpdOK(a) == a.a = 0 \/ (LET slot == SlotSeq(Shape(pm))[a.a] flat == Flatten(pm)
 
 EditActs ==
   UpdActs
-  \cup {Act("setw", m, j, w, << >>, << >>) : m \in 1..Len(pm), j \in 1..3, w \in WAlt}
-  \cup {Act("setx", m, j, x, << >>, << >>) : m \in 1..Len(pm), j \in 1..3, x \in XAlt}
+  \cup {Act("setw", m, j, w, << >>, << >>) : m \in 1..Len(pm), j \in DOMAIN WFam, w \in WAlt}
+  \cup {Act("setx", m, j, x, << >>, << >>) : m \in 1..Len(pm), j \in DOMAIN WFam, x \in XAlt}
   \cup {Act("cm", m, k, 0, RatPlus(CenterMass(pm[m]), k), << >>) : m \in 1..Len(pm), k \in Shifts}
   \cup {Act("rng", m, k, 0, <<k * SpreadOf(pm[m]), 1>>, << >>) : m \in 1..Len(pm), k \in Scales}
   \cup {Act("var", m, k, 0, RatTimes(VarOf(pm[m]), k * k), << >>) : m \in 1..Len(pm), k \in Scales}
